@@ -73,7 +73,7 @@ def check(ctx):
     # bodies of KeyObjectSet::requires_reissuance / ResourceClassObjects::requires_re_issuance regenerated from the
     # source; C14Src: generated definitions = model functions
     return objlib.run(ctx, QUICK, THOROUGH, RULE, ASSUME, extra_bins=["proto"], extra_stream=ta_stream,
-                      translate=[("pure_fns:C14", "PureFns.lean")], extra_modules=["KrillModel.Props.C14Src"])
+                      translate=[("pure_fns:C14", "PureFnsC14.lean")], extra_modules=["KrillModel.Props.C14Src"])
 
 
 def replay(ctx, data):
